@@ -103,7 +103,7 @@ func (s *SeqSpec) stable(full []int, v Violation) bool {
 		st.Close()
 		ok := false
 		for _, o := range vs {
-			if o.Assert == v.Assert && o.Witness == v.Witness && o.Detail == v.Detail {
+			if o.Assert == v.Assert && o.Witness == v.Witness {
 				ok = true
 			}
 		}
@@ -277,7 +277,7 @@ func (s *FlatSpec) Explore(c *Ctx, prefix json.RawMessage, split bool) (children
 				_, _, _, again := s.Case(i)
 				ok := false
 				for _, o := range again {
-					if o.Assert == v.Assert && o.Witness == v.Witness && o.Detail == v.Detail {
+					if o.Assert == v.Assert && o.Witness == v.Witness {
 						ok = true
 					}
 				}
